@@ -425,11 +425,12 @@ class Controller(object):
         dirns = random_directions_within_bounds(num_steps, step_length, self.model.sl - xopt, self.model.su - xopt)
         # Make direction orthogonal
         Y = self.model.xpt_directions(include_kopt=False).T  # columns are the current set of directions
-        Q, R = LA.qr(Y, mode='economic')  # columns of Q are orthonormal basis for current set of directions
-        for k in range(Q.shape[1]):
-            qk = Q[:, k]
-            for j in range(dirns.shape[0]):
-                dirns[j, :] = dirns[j, :] - np.dot(dirns[j, :], qk) * qk
+        if Y.shape[1] < self.n():  # n or more directions (npt > n+1) span the whole space: nothing nonzero is orthogonal to all of them
+            Q, R = LA.qr(Y, mode='economic')  # columns of Q are orthonormal basis for current set of directions
+            for k in range(Q.shape[1]):
+                qk = Q[:, k]
+                for j in range(dirns.shape[0]):
+                    dirns[j, :] = dirns[j, :] - np.dot(dirns[j, :], qk) * qk
 
         # Evaluate the points
         for j in range(num_steps):
